@@ -76,7 +76,17 @@ def impl_run(segs, lim, auto_decompress=False):
              "ctail": len(pp._chunk_tail) if pp is not None else 0,
              "tlines": len(pp._trailer_lines) if pp is not None else 0,
              "tlbytes": sum(len(x) for x in pp._trailer_lines) if pp is not None else 0}
-    return {"outcome": outcome, "msgs": out, "state": state}
+    # An accepted message must be usable: what BaseRequest.__init__ and the router read from the parsed URL
+    # (outside any try block of RequestHandler.start) must not raise.  Kept outside "msgs": the model has no
+    # counterpart (yarl is an oracle of the model), it is judged by the totality oracle of C10 only.
+    urlexc = []
+    for m, _ in got:
+        try:
+            u = m.url
+            u.absolute, u.host, u.port, u.raw_path, u.raw_query_string, u.scheme
+        except Exception as e:  # noqa
+            urlexc.append(f"{type(e).__name__} for target {m.path!r}")
+    return {"outcome": outcome, "msgs": out, "state": state, "urlexc": urlexc}
 
 
 def yarl_verdict(connect: bool, target: bytes) -> bool:
@@ -227,7 +237,8 @@ def gen_request(rng, keep=False):
     connection stays open (so that a pipelined successor is legitimate). Returns bytes."""
     method = rng.choice(METHODS[:-1] if keep else METHODS)
     if method == b"CONNECT":
-        target = rng.choice([b"h.example:443", b"[::1]:80", b"a:b", b"x"])
+        target = rng.choice([b"h.example:443", b"[::1]:80", b"a:b", b"x", b"h\xc3\xa9st.example:443", b"\xff\xfe:80",
+                             b"h_st.example:443", b"[::1:80", b"h.example:99999"])
     else:
         target = rng.choice(TARGETS[:10]) if (keep or rng.random() < 0.9) else rng.choice(TARGETS)
         if target == b"*" and method != b"OPTIONS":
@@ -668,6 +679,8 @@ def non_utf8_streams():
         b"GET / HTTP/1." + bad + b"\r\nHost: x\r\n\r\n",
         b"GET http://" + bad + b"[::1 HTTP/1.1\r\nHost: x\r\n\r\n",
         b"CONNECT " + bad + b":b HTTP/1.1\r\nHost: x\r\n\r\n",
+        b"CONNECT " + bad + b":443 HTTP/1.1\r\nHost: x\r\n\r\n",
+        b"CONNECT h\xc3\xa9st.example:443 HTTP/1.1\r\nHost: x\r\n\r\n",
         b"GET / HTTP/1.1\r\nHost: x\r\nX" + bad + b": v\r\n\r\n",
         b"GET / HTTP/1.1\r\nHost: x\r\nX: v\x01" + bad + b"\r\n\r\n",
         b"GET / HTTP/1.1\r\nHost: x\r\nContent-Length: 1" + bad + b"\r\n\r\n",
